@@ -52,7 +52,7 @@ func verifMarkExprs() []string {
 		"l[*]", "l[*].x", "o[*].x", "o.*.x", "[a, b][*]", "{x = a}[*].x",
 		"!a", "!(a && b)", "(a || b) && c", "a ? (b || c) : (b && c)",
 		"[for v in l : v]", "{for k, v in o : k => v}", "[for v in l : v if a]",
-		"l[0]", "o.x", "o[\"x\"]", "u.x", "u[\"x\"]", "ul[0]", "%{ for x in ul }${x}%{ endfor }", "a%{ for x in ul }${x}%{ endfor }b", "%{ for x in l }${x.x}%{ endfor }", "id(ul...)", "id(dy...)", "id(l...)", "id(us)", "{(us) = 1}", "{\"${us}\" = a}", "{a = 1, (us) = 2}", "[for x in dy : x]", "{for k, x in dy : k => x}", "[for x in ul : x]", "{for k, x in l : k => x.x}", "[for x in l : x.x if a]", "\"p${us}\"", "\"${us}${a}\"", "us == \"k\"", "\"${a}\"", "\"x${a}y${b}\"", "%{ if a }yes%{ else }no%{ endif }",
+		"l[0]", "o.x", "o[\"x\"]", "u.x", "u[\"x\"]", "ul[0]", "%{ for x in ul }${x}%{ endfor }", "a%{ for x in ul }${x}%{ endfor }b", "%{ for x in l }${x.x}%{ endfor }", "o2[ks]", "l2[ki]", "t2[ki]", "id(ul...)", "id(dy...)", "id(l...)", "id(us)", "{(us) = 1}", "{\"${us}\" = a}", "{a = 1, (us) = 2}", "[for x in dy : x]", "{for k, x in dy : k => x}", "[for x in ul : x]", "{for k, x in l : k => x.x}", "[for x in l : x.x if a]", "\"p${us}\"", "\"${us}${a}\"", "us == \"k\"", "\"${a}\"", "\"x${a}y${b}\"", "%{ if a }yes%{ else }no%{ endif }",
 	)
 	return out
 }
@@ -73,6 +73,11 @@ func TestVerifReplayMarks(t *testing.T) {
 		"ul": cty.UnknownVal(cty.List(cty.Number)),
 		"us": cty.UnknownVal(cty.String),
 		"dy": cty.DynamicVal,
+		"ks": cty.StringVal("x"),
+		"ki": cty.NumberIntVal(0),
+		"o2": cty.ObjectVal(map[string]cty.Value{"x": cty.NumberIntVal(1), "y": cty.NumberIntVal(2)}),
+		"l2": cty.ListVal([]cty.Value{cty.NumberIntVal(1), cty.NumberIntVal(2)}),
+		"t2": cty.TupleVal([]cty.Value{cty.NumberIntVal(1), cty.StringVal("two")}),
 	}
 	alts := map[string]cty.Value{
 		"a": cty.False, "b": cty.True, "c": cty.False,
@@ -84,6 +89,11 @@ func TestVerifReplayMarks(t *testing.T) {
 		"ul": cty.ListVal([]cty.Value{cty.NumberIntVal(1)}),
 		"us": cty.StringVal("k"),
 		"dy": cty.ListVal([]cty.Value{cty.StringVal("k")}),
+		"ks": cty.StringVal("y"),
+		"ki": cty.NumberIntVal(1),
+		"o2": cty.ObjectVal(map[string]cty.Value{"x": cty.NumberIntVal(3), "y": cty.NumberIntVal(4)}),
+		"l2": cty.ListVal([]cty.Value{cty.NumberIntVal(3), cty.NumberIntVal(4)}),
+		"t2": cty.TupleVal([]cty.Value{cty.NumberIntVal(3), cty.StringVal("four")}),
 	}
 	n, fails := 0, 0
 	for _, src := range verifMarkExprs() {
